@@ -72,6 +72,24 @@ def stage_monitor(ctx):
                 if set(data) != want:
                     st.violation('ids-missing', f'{fam}.read_runtime_data() misses {sorted(want - set(data))[:5]} when the registers of {x.id_} hold {cfg["own_registers"]}', dict(config=cfg))
             for a, w in keep.items(): sim.set(a, w)
+    # ES answers of any announced length: the AA55 runtime / settings payload shorter (or longer) than the sensor table expects -- every id is
+    # still reported, nothing but None / values comes out
+    for ln in ([0, 1, 2, 3, 7, 30, 57, 58, 59, 60, 63, 64, 86, 88, 90, 92, 93, 94, 120, 149] if not ctx.deep else list(range(0, 160))):
+        for which in ('runtime', 'settings'):
+            inv, sim = IM.make_es(goodwe, IM.ES_SERIALS['ESU'], '2314E', seed=ctx.rng.randrange(1 << 30))
+            asyncio.run(inv.read_device_info())
+            body = bytes(ctx.rng.randrange(256) for _ in range(ln)) if ctx.rng.random() < 0.7 else bytes([ctx.rng.choice([0, 0xFF])]) * ln
+            getattr(sim, which)[:] = body
+            meth = 'read_runtime_data' if which == 'runtime' else 'read_settings_data'
+            cfg = dict(family='ES', block=which, announced_length=ln, payload=body.hex())
+            st.case(('ES-len', which, ln), sample=cfg if ln == 58 else None)
+            try:
+                data = asyncio.run(getattr(inv, meth)())
+            except Exception as ex:     # noqa
+                st.violation('bulk-read-raises', f'ES.{meth}() raised {type(ex).__name__}: {ex} on a {which} answer of {ln} bytes', dict(config=cfg, call=meth)); continue
+            want = {x.id_ for x in (inv.sensors() if which == 'runtime' else inv.settings())}
+            if set(data) != want:
+                st.violation('ids-missing', f'ES.{meth}() misses {sorted(want - set(data))[:5]} on a {which} answer of {ln} bytes', dict(config=cfg, call=meth))
     # consecutive polls with an undecodable value (a cache of failing sensors must not drop the key)
     inv, sim = IM.make_dt(goodwe, IM.DT_SERIALS['three-phase'], False, seed=3); asyncio.run(inv.read_device_info())
     sim.set_bytes(30100, bytes([24, 13, 40, 25, 61, 61]))
